@@ -136,6 +136,8 @@ fn build_decision_evaluator(definitions: &Definitions, decision: &Decision, mode
       required_input_data_references.push(href.into())
     }
   }
+  #[cfg(dmntk_verif)]
+  let verif_id = decision.id().clone().unwrap_or_default();
   // build decision evaluator closure
   let decision_evaluator = Box::new(
     move |input_data_ctx: &FeelContext, model_evaluator: &ModelEvaluator, output_data_ctx: &mut FeelContext| {
@@ -145,6 +147,8 @@ fn build_decision_evaluator(definitions: &Definitions, decision: &Decision, mode
           if let Ok(decision_evaluator) = model_evaluator.decision_evaluator() {
             if let Ok(input_data_evaluator) = model_evaluator.input_data_evaluator() {
               if let Ok(item_definition_evaluator) = model_evaluator.item_definition_evaluator() {
+                #[cfg(dmntk_verif)]
+                crate::verif::emit("decision", &verif_id, input_data_ctx);
                 // prepare context containing values from required knowledge and required decisions
                 let mut required_knowledge_ctx: FeelContext = Default::default();
                 // evaluate required knowledge as values from business knowledge models
